@@ -304,6 +304,121 @@ def run_e2e(rep, tier, P):
     return len(jobs)
 
 
+# ------------------------------------------------------------------ the real call sequence of include.c
+def gen_src(rnd, depth, stack, counter):
+    """source structure with render text: ('L', text) | ('S', text) | ('H', n, fn) | ('I', fn, body)"""
+    items = []
+    for _ in range(rnd.choice([1, 2, 3, 5, 8])):
+        r = rnd.random()
+        counter[0] += 1
+        if r < 0.45:
+            items.append(("L", rnd.choice(["v%d: MachineInteger := %d;" % (counter[0], counter[0]), "", "-- note", "   ",
+                                           "#assert Prop%d" % counter[0], "\tw%d := 0;" % counter[0]])))
+        elif r < 0.6:
+            items.append(("L", "#if NeverAsserted%d" % counter[0]))
+            for _ in range(rnd.choice([1, 2, 4])):
+                items.append(("S", rnd.choice(["skipped junk ) (", "", "#include \"nonexistent.as\"", "#line 5"])))
+            if rnd.random() < 0.4:
+                items.append(("L", "#else"))
+                items.append(("L", "e%d: MachineInteger := 0;" % counter[0]))
+            items.append(("L", "#endif"))
+        elif r < 0.75:
+            fn = 0 if rnd.random() < 0.5 else rnd.randrange(100 + 40 * depth, 120 + 40 * depth)
+            items.append(("H", rnd.choice([1, 2, 7, 100, 5000, 70000]), fn))
+        elif depth < 3:
+            fn = rnd.randrange(10 + 10 * depth, 20 + 10 * depth)
+            while fn in stack or fn in counter[1]:
+                fn += 1000
+            counter[1].add(fn)
+            items.append(("I", fn, gen_src(rnd, depth + 1, stack + [fn], counter)))
+        else:
+            items.append(("L", ""))
+    return items
+
+
+def render_src(items, d, fid):
+    lines = []
+    for it in items:
+        if it[0] in ("L", "S"):
+            lines.append(it[1])
+        elif it[0] == "H":
+            lines.append('#line %d "f%d.as"' % (it[1], it[2]) if it[2] else "#line %d" % it[1])
+        else:
+            lines.append('#include "f%d.as"' % it[1])
+            render_src(it[2], d, it[1])
+    open("%s/f%d.as" % (d, fid), "w").write("\n".join(lines) + "\n")
+
+
+def run_calls(rep, tier, P):
+    """Tie for the include.c half of the model: the calls the REAL compiler makes into the line table
+    (sposNew / sposGrowGloLineTbl, observed through a linker --wrap hook) on rendered sources with
+    #include / #line / #if structure must be exactly the calls the model's run makes."""
+    import concurrent.futures
+    exe = C.build_wrapped_compiler("srcpos/hook.c", ["sposNew", "sposGrowGloLineTbl"])
+    rnd = C.rng("c15-calls")
+    work = C.scratch("c15calls")
+    n = 40 if tier == "quick" else 600
+    jobs = []
+    for i in range(n):
+        items = gen_src(rnd, 0, [1], [0, set()])
+        d = "%s/s%d" % (work, i)
+        os.makedirs(d)
+        render_src(items, d, 1)
+        jobs.append((i, d, items))
+
+    def one(j):
+        i, d, items = j
+        env = C.aldor_env()
+        env["VERIF_SPOS_LOG"] = d + "/log"
+        rc, o, e = C.run(C.aldor_base_args(exe) + ["-Fap", "f1.as"], cwd=d, env=env, timeout=120)
+        try:
+            log = open(d + "/log").read().split("\n")
+        except OSError:
+            log = []
+        return j, rc, log, (o + e)
+    nops = 0
+    bad = 0
+    with concurrent.futures.ThreadPoolExecutor(C.NCPU) as ex:
+        for (i, d, items), rc, log, text in ex.map(one, jobs):
+            plain = [(it[0],) if it[0] in ("L", "S") else it for it in strip_text(items)]
+            want, _truth = items_to_ops(plain, 1)
+            got = []
+            for l in log:
+                w = l.split()
+                if not w:
+                    continue
+                fid = int(w[1][1:]) if w[1].startswith("f") and w[1][1:].isdigit() else -1
+                if w[0] == "new":
+                    got.append(("new", fid, int(w[2]), int(w[3]), int(w[4])))
+                else:
+                    got.append(("grow", fid, int(w[2]), int(w[3])))
+            nops += len(got)
+            if got != want:
+                bad += 1
+                k = next((x for x in range(min(len(got), len(want))) if got[x] != want[x]), min(len(got), len(want)))
+                files = {f: open(d + "/" + f).read() for f in sorted(os.listdir(d)) if f.endswith(".as")}
+                rep.violation("correspondence include.c -> line table no longer checks: call %d is %s in the compiler, %s in the model"
+                              % (k, got[k] if k < len(got) else None, want[k] if k < len(want) else None),
+                              {"files": files, "compiler_calls": got[:60], "model_calls": want[:60], "rc": rc,
+                               "cmd": "aldor(-Wl,--wrap=sposNew,...) -Fap f1.as"}, no_input=True)
+                if bad >= 3:
+                    break
+    rep.add_cov(call_sequences_compared=len(jobs), calls_compared=nops)
+    rep.add_cov(traces_validated_against_impl=len(jobs))
+
+
+def strip_text(items):
+    out = []
+    for it in items:
+        if it[0] in ("L", "S"):
+            out.append((it[0],))
+        elif it[0] == "H":
+            out.append(it)
+        else:
+            out.append(("I", it[1], strip_text(it[2])))
+    return out
+
+
 # ------------------------------------------------------------------ metamorphic: any diagnostics shift with inserted lines
 FAULTY = [
     # (name, lines)  - several error kinds: undefined name, argument type, arity, syntax; piled and braced
@@ -395,7 +510,8 @@ def run(rep, tier):
         corr(rep, tier, P)
     run_e2e(rep, tier, P)
     run_meta(rep, tier, P)
-    rep.assume("extraction: ExtrOcamlBasic only; driver.ml converts binary strings to Z by constructors only",
+    run_calls(rep, tier, P)
+    rep.assume("harness/srcpos/hook.c (linker --wrap) reports the compiler's calls into srcpos.c faithfully","extraction: ExtrOcamlBasic only; driver.ml converts binary strings to Z by constructors only",
                "harness/srcpos/h.c links the current srcpos.c with libgen/libport sources of the current tree",
                "python numbering oracle for generated sources (physical line counting, #line arithmetic)",
                "not modelled: token blame choice, excerpt printing, message sorting")
